@@ -262,10 +262,17 @@ class History:
             kw['namespaces'] = req if len(req) > 1 or rng.random() < 0.5 \
                 else req[0]
         exc = None
+        # schedule choice (threaded client): the read-loop thread handles the
+        # server's answers before / after engineio's connect() has returned
+        h.eager_after_connect = (not h.is_async) and rng.random() < 0.4
+        if h.eager_after_connect:
+            ctx.count('connects_with_eager_read_loop')
         try:
             h.api('connect', 'http://host', **kw)
         except Exception as e:
             exc = e
+        finally:
+            h.eager_after_connect = False
         errs = h.all_errors()
         if errs:
             return self.fail('error escaped during connect(): %s' %
@@ -694,6 +701,7 @@ def run(ctx):
     ctx.require('disconnect_accounting', 50)
     ctx.require('post_reconnect_probes', 10)
     ctx.require('partial_binary_then_end', 5)
+    ctx.require('connects_with_eager_read_loop', 20)
     k = 0
     while not ctx.out_of_time() and not ctx.too_many_violations():
         run_case(ctx, k)
